@@ -90,6 +90,17 @@ func VerifHarness_C04_logon_gap() {
 	if !initiator {
 		verifAssert(len(ws) >= 1 && ws[0].is("A"), "logon-gap-acceptor-answers-logon-first")
 	}
+	// a live message arriving before the replay is kept, not requested again
+	live := r.appMessage(S + 1)
+	r.s.fixMsgIn(r.s, live)
+	r.pump()
+	verifAssert(verifCountType(r.drain(), "2") == 0, "logon-gap-no-second-resendrequest")
+	rs, ok := r.s.State.(resendState)
+	verifAssert(ok, "logon-gap-still-recovering")
+	if ok {
+		kept, have := rs.messageStash[S+1]
+		verifAssert(have && kept == live, "logon-gap-early-message-kept")
+	}
 }
 
 // C04_recover: recovery in progress, K further events.
